@@ -45,7 +45,15 @@ CLAIM = dict(
           "converted by 2-4 NumpyFloatToFixConverters in a row (n_frac 0 and not, all widths, signed / unsigned, narrow "
           "range first) and each result array by 1-2 NumpyFixToFloatConverters in a row, every result compared with "
           "the Lean rule / the scalar converter on the ORIGINAL values (array-ne-scalar-sequence); read-only inputs "
-          "must convert without error (array-readonly-rejected)."),
+          "must convert without error (array-readonly-rejected). Converter OBJECTS are reused as well: 1-3 converters "
+          "(NumpyFloatToFixConverter, NumpyFixToFloatConverter and the kept closures float_to_fp / float_to_fix / "
+          "fp_to_float / fix_to_float; magnitude-bit twins unsigned N-1 / signed N such as U8/S9, U15/S16, U31/S32 in "
+          "both orders, across the scalar, deprecated and array API) are created once in a freshly reloaded module and "
+          "called 3-7 times on same-shaped and differently-shaped inputs; every result is compared with the model and "
+          "the Lean rule when returned, ALL returned arrays are kept and re-checked byte-wise after every later call, "
+          "after the harness writes to another returned array and after it writes to the input (a changed result is "
+          "the violation array-result-overwritten, shown with the Lean rule's verdict on the new contents and with "
+          "what the array shares memory with: input, other results, converter attributes)."),
     design="3/C16",
     note=("Doubles are modelled as (m, e) pairs. PROVED inside the model (no longer trusted): the model's int -> "
           "double conversion is round-to-nearest-even to 53 bits, monotone, idempotent, exact up to 2^53 and for every "
@@ -88,10 +96,14 @@ RULE = ("one case = one format (signed, n_bits, n_frac) with 6-24 doubles built 
         "patterns; sequence cases: one input object (14 container kinds incl. read-only, views, float32/16, list) "
         "through 2-4 array converters in a row (first one n_frac = 0 in 70%, often sorted narrow range first; values "
         "around every step's range and far outside the narrowest) and 0-2 NumpyFixToFloatConverters on each result; "
-        "every array-taking call is bracketed by a deep snapshot of its input. "
+        "every array-taking call is bracketed by a deep snapshot of its input; reuse cases: 1-3 converter objects (array "
+        "converters, kept scalar / deprecated closures, twin formats U(N-1)/S(N) in both orders) created once after "
+        "reloading rig.type_casts, 3-7 calls (65% same shape and container as the first), all results kept and "
+        "re-checked after every later call, after writing to 0-2 returned arrays and to 0-2 inputs. "
         "A case is non-trivial when it contains both a saturating value and an in-range value whose scaled value has a "
         "fractional part (conversion and narrow cases), an in-range integer of more than 24 bits (inverse cases), or a value "
-        "that saturates in an earlier step and not in a later one (sequence cases); distinct = "
+        "that saturates in an earlier step and not in a later one (sequence cases), or one converter called twice on the same "
+        "shape / several converters (reuse cases); distinct = "
         "distinct canonical JSON")
 
 NP_BITS = (8, 16, 32, 64)
@@ -1153,11 +1165,319 @@ def judge_seq(ctx, c):
     ctx.case(desc, nontrivial)
 
 
+# ---------------------------------------------------------------- ONE converter object, many calls, results kept
+PAIR_FORMATS = [((False, 8), (True, 9)), ((False, 15), (True, 16)), ((False, 31), (True, 32)),
+                ((False, 7), (True, 8)), ((False, 63), (True, 64)), ((False, 16), (True, 17))]
+REUSE_CONTAINERS = ["c64", "c64", "c64", "c2d", "f2d", "strided", "ro", "list", "0d"]
+
+
+def gen_reuse_spec(rng, kind, signed=None, bits=None):
+    if bits is None:
+        bits = rng.choice(NP_BITS) if kind in ("np_fix", "np_float") or rng.random() < 0.6 else rng.randrange(2, 40)
+        signed = rng.random() < 0.6
+    r = rng.random()
+    frac = 0 if r < 0.25 else rng.randrange(0, bits) if r < 0.85 else -rng.randrange(1, 5)
+    if kind in ("fix", "fix_float"):
+        frac = max(0, min(frac, bits - (1 if signed else 0)))
+    return {"kind": kind, "fmt": {"signed": signed, "bits": bits, "frac": frac}}
+
+
+def gen_reuse_case(rng):
+    """1-3 converter objects created once, in a given order, and kept; 3-7 calls on them with
+    same-shaped and differently-shaped inputs; every result is kept and re-checked after every later
+    call, after writing to another result and after writing to the input"""
+    r = rng.random()
+    if r < 0.35:
+        convs = [gen_reuse_spec(rng, "np_fix")]
+        if rng.random() < 0.3:
+            convs.append(gen_reuse_spec(rng, "np_fix"))
+    elif r < 0.5:
+        convs = [gen_reuse_spec(rng, "np_float")]
+    elif r < 0.8:
+        # magnitude-bit twins (unsigned N-1 / signed N) in both orders, across the scalar, deprecated and array API
+        (us, ub), (ss, sb) = rng.choice(PAIR_FORMATS)
+        ka = rng.choice(["fp", "fp", "fix", "np_fix", "fix_float"])
+        kb = rng.choice(["fp", "fp", "fix", "np_fix", "fix_float"])
+        a = gen_reuse_spec(rng, ka if ub in NP_BITS or ka != "np_fix" else "fp", us, ub)
+        b = gen_reuse_spec(rng, kb if sb in NP_BITS or kb != "np_fix" else "fp", ss, sb)
+        convs = [a, b] if rng.random() < 0.5 else [b, a]
+        if rng.random() < 0.3:
+            convs.append(gen_reuse_spec(rng, rng.choice(["fp", "fp_float"])))
+    else:
+        convs = [gen_reuse_spec(rng, rng.choice(["fp", "fix", "fp_float", "fix_float"]))
+                 for _ in range(rng.choice([1, 2, 3]))]
+    n0 = rng.choice([2, 4, 6])
+    c0 = rng.choice(REUSE_CONTAINERS)
+    calls = []
+    for _ in range(rng.choice([3, 4, 4, 5, 6, 7])):
+        ci = rng.randrange(len(convs))
+        sp = convs[ci]
+        fmt = sp["fmt"]
+        same = rng.random() < 0.65
+        n = n0 if same else rng.choice([2, 4, 6, 8])
+        cont = c0 if same else rng.choice(REUSE_CONTAINERS)
+        call_ = {"c": ci}
+        if sp["kind"] in ("np_fix", "fp", "fix"):
+            call_["vs"] = [to_dy(x) for x in gen_values(rng, fmt, n)]
+            call_["cont"] = cont
+        elif sp["kind"] == "np_float":
+            ds, db = rng.choice(sorted(NP_DTYPE))
+            call_["dtype"] = [ds, db]
+            call_["ks"] = gen_ints_in(rng, {"signed": ds, "bits": db}, n)
+            call_["cont"] = cont if cont not in ("list", "0d") else "c64"
+        elif sp["kind"] == "fp_float":
+            call_["ks"] = gen_ints(rng, fmt, n)
+        else:   # fix_float: unsigned words
+            call_["ks"] = [k % 2 ** fmt["bits"] for k in gen_ints_in(rng, fmt, n)]
+        calls.append(call_)
+    k = len(calls)
+    return {"kind": "reuse", "convs": convs, "calls": calls,
+            "mutate_result": sorted(rng.sample(range(k), rng.choice([0, 0, 1, 1, 2]))),
+            "mutate_input": sorted(rng.sample(range(k), rng.choice([0, 1, 1, 2])))}
+
+
+def gen_ints_in(rng, fmt, n):
+    lo, hi = fmt_range(fmt)
+    out = []
+    for _ in range(n):
+        r = rng.random()
+        out.append(rng.choice([lo, hi, 0, 1, lo + 1, hi - 1, hi // 2]) if r < 0.35 else rng.randrange(lo, hi + 1))
+    return out
+
+
+def int_container(np, ks, kind, dt):
+    a = np.array(ks, dtype=dt)
+    n = len(ks)
+    if kind == "c2d":
+        a = a.reshape(2, n // 2)
+    elif kind == "f2d":
+        a = np.asfortranarray(a.reshape(2, n // 2))
+    elif kind == "strided":
+        b = np.zeros(2 * n, dtype=dt)
+        b[::2] = a
+        a = b[::2]
+    elif kind == "ro":
+        a.flags.writeable = False
+    return a
+
+
+def impl_reuse(case):
+    import importlib
+    import numpy as np
+    from rig import type_casts as tc
+    tc = importlib.reload(tc)          # module-level state starts fresh: the case (and its replay) is self-contained
+    out = {"convs": [], "calls": []}
+    objs = []
+    with np.errstate(all="ignore"):
+        for sp in case["convs"]:
+            f = sp["fmt"]
+            s, b, fr = f["signed"], f["bits"], f["frac"]
+            mk = {"np_fix": lambda: tc.NumpyFloatToFixConverter(s, b, fr),
+                  "np_float": lambda: tc.NumpyFixToFloatConverter(fr),
+                  "fp": lambda: tc.float_to_fp(s, b, fr), "fix": lambda: tc.float_to_fix(s, b, fr),
+                  "fp_float": lambda: tc.fp_to_float(fr), "fix_float": lambda: tc.fix_to_float(s, b, fr)}[sp["kind"]]
+            r = call(mk)
+            objs.append(r)
+            out["convs"].append("ok" if "ok" in r else r)
+        kept = []          # (call index, result ndarray, bytes when returned / after our own write)
+
+        def recheck(event):
+            for (i, res, ref) in kept:
+                oc = out["calls"][i]
+                if oc.get("changed") is None and res.tobytes() != ref[0]:
+                    oc["changed"] = event
+                    oc["now"] = canon_list(res)
+
+        def canon_list(res):
+            flat = np.asarray(res).reshape(-1).tolist()
+            return [{"ok": int(v)} if isinstance(v, int) else {"ok": canon_float(v)} for v in flat]
+
+        for j, cl in enumerate(case["calls"]):
+            sp = case["convs"][cl["c"]]
+            kind = sp["kind"]
+            oc = {"changed": None, "alias": []}
+            out["calls"].append(oc)
+            mk = objs[cl["c"]]
+            if "err" in mk:
+                oc["ret"] = [mk] * len(cl.get("vs", cl.get("ks")))
+                oc["orig"] = cl.get("vs")
+                continue
+            conv = mk["ok"]
+            if kind in ("fp", "fix", "fp_float", "fix_float"):
+                xs = [from_dy(p) for p in cl["vs"]] if "vs" in cl else cl["ks"]
+                oc["orig"] = cl.get("vs")
+                oc["ret"] = []
+                for x in xs:
+                    r = call(conv, x)
+                    if "ok" in r:
+                        r = {"ok": int(r["ok"])} if kind in ("fp", "fix") else {"ok": canon_float(r["ok"])}
+                    oc["ret"].append(r)
+                recheck("call %d (%s)" % (j + 1, kind))
+                continue
+            if kind == "np_fix":
+                obj = make_container(np, [from_dy(p) for p in cl["vs"]], cl["cont"])
+                orig = [float(x) for x in np.asarray(obj, dtype=np.float64).reshape(-1).tolist()]
+                oc["orig"] = [to_dy(x) for x in orig]
+                g = call(tc.float_to_fp, sp["fmt"]["signed"], sp["fmt"]["bits"], sp["fmt"]["frac"])
+                oc["scalar"] = [call(g["ok"], x) if "ok" in g else g for x in orig]
+                oc["scalar"] = [{"ok": int(q["ok"])} if "ok" in q else q for q in oc["scalar"]]
+            else:
+                obj = int_container(np, cl["ks"], cl["cont"], getattr(np, NP_DTYPE[tuple(cl["dtype"])]))
+                oc["ks"] = [int(v) for v in obj.reshape(-1).tolist()]
+                g = call(tc.fp_to_float, sp["fmt"]["frac"])
+                oc["scalar"] = [call(g["ok"], k) if "ok" in g else g for k in oc["ks"]]
+                oc["scalar"] = [{"ok": canon_float(q["ok"])} if "ok" in q else q for q in oc["scalar"]]
+            r = call_keep(oc, "call %d" % (j + 1), conv, obj)
+            n_el = len(oc.get("orig") or oc.get("ks"))
+            if "err" in r:
+                oc["ret"] = [r] * n_el
+                recheck("call %d raising" % (j + 1))
+                continue
+            res = r["ok"]
+            oc["ret"] = canon_list(res)
+            want_dt = np.dtype(NP_DTYPE[(sp["fmt"]["signed"], sp["fmt"]["bits"])]) if kind == "np_fix" else np.float64
+            oc["meta"] = bool(np.shape(res) == np.shape(obj) and np.asarray(res).dtype == want_dt)
+            recheck("call %d on the same converter object" % (j + 1) if True else "")
+            if isinstance(res, np.ndarray):
+                if isinstance(obj, np.ndarray) and np.shares_memory(res, obj):
+                    oc["alias"].append("its input")
+                for (i, other, _) in kept:
+                    if np.shares_memory(res, other):
+                        oc["alias"].append("the result of call %d" % (i + 1))
+                for name, val in sorted(getattr(conv, "__dict__", {}).items()):
+                    if isinstance(val, np.ndarray) and np.shares_memory(res, val):
+                        oc["alias"].append("the converter attribute %s" % name)
+                ref = [res.tobytes()]
+                kept.append((j, res, ref))
+                if j in case["mutate_input"] and isinstance(obj, np.ndarray) and obj.flags.writeable and obj.ndim:
+                    obj[...] = 3 if kind == "np_float" else 3.0
+                    recheck("writing to the input array of call %d after it returned" % (j + 1))
+                if j in case["mutate_result"] and res.flags.writeable and res.ndim:
+                    res[...] = 85
+                    ref[0] = res.tobytes()
+                    oc["mutated"] = True
+                    recheck("writing to the array returned by call %d" % (j + 1))
+    return out
+
+
+def eval_reuse(ctx, cases):
+    reqs, idx = [], []
+    var = ctx.extra.get("code_variant") or detect_variant(ctx)
+    for c in cases:
+        c["impl"] = impl = impl_reuse(c)
+        for cl, oc in zip(c["calls"], impl["calls"]):
+            sp = c["convs"][cl["c"]]
+            fmt, kind = sp["fmt"], sp["kind"]
+            if kind in ("np_fix", "fp", "fix"):
+                vs = oc["orig"]
+                op = {"np_fix": "np_float_to_fix", "fp": "float_to_fp", "fix": "float_to_fix"}[kind]
+                reqs.append(fmt_req(fmt, op, vs=vs, repaired=var.get("np" if kind == "np_fix" else "fix") == "repaired"))
+                idx.append((oc, "model"))
+                sel = [i for i, r in enumerate(oc["ret"]) if "ok" in r]
+                oc["sel"] = sel
+                reqs.append(fmt_req(fmt, "spec_fix" if kind == "fix" else "spec_fp", vs=[vs[i] for i in sel],
+                                    rs=[oc["ret"][i]["ok"] for i in sel]))
+                idx.append((oc, "oracle"))
+                if oc.get("now") is not None and len(oc["now"]) == len(vs):
+                    reqs.append(fmt_req(fmt, "spec_fp", vs=vs, rs=[q["ok"] for q in oc["now"]]))
+                    idx.append((oc, "oracle_now"))
+            elif kind == "np_float":
+                reqs.append({"suite": "c16", "op": "np_fix_to_float", "frac": fmt["frac"], "ks": oc.get("ks", cl["ks"])})
+                idx.append((oc, "model"))
+            elif kind == "fp_float":
+                reqs.append({"suite": "c16", "op": "fp_to_float", "frac": fmt["frac"], "ks": cl["ks"]})
+                idx.append((oc, "model"))
+            else:
+                reqs.append(fmt_req(fmt, "fix_to_float", ws=cl["ks"]))
+                idx.append((oc, "model"))
+    for (d, what), r in zip(idx, ctx.lean(reqs)):
+        d[what] = r
+    for c in cases:
+        judge_reuse(ctx, c)
+
+
+def judge_reuse(ctx, c):
+    impl = c["impl"]
+    desc = {k: c[k] for k in ("kind", "convs", "calls", "mutate_result", "mutate_input")}
+    ctx.traces += 1
+    names = {"np_fix": "NumpyFloatToFixConverter", "np_float": "NumpyFixToFloatConverter", "fp": "float_to_fp",
+             "fix": "float_to_fix", "fp_float": "fp_to_float", "fix_float": "fix_to_float"}
+    objs = ", ".join("%s %s" % (names[sp["kind"]], describe(sp["fmt"])) for sp in c["convs"])
+    same_shape_again = False
+    seen = set()
+    for j, (cl, oc) in enumerate(zip(c["calls"], impl["calls"])):
+        sp = c["convs"][cl["c"]]
+        fmt, kind = sp["fmt"], sp["kind"]
+        who = "%s %s (object %d of [%s], call %d of %d)" % (names[kind], describe(fmt), cl["c"] + 1, objs, j + 1,
+                                                           len(c["calls"]))
+        inputs = oc.get("orig") if kind in ("np_fix", "fp", "fix") else oc.get("ks", cl.get("ks"))
+        shown = [from_dy(p) for p in inputs] if kind in ("np_fix", "fp", "fix") else inputs
+        floaty = kind in ("np_float", "fp_float", "fix_float")
+        # correspondence and the Lean rule on what the call returned
+        for i, (a, m) in enumerate(zip(oc["ret"], oc["model"])):
+            if floaty:
+                m = canon_model_float(m)
+            if m.get("ok") == "unspecified" or m.get("err") == "domain":
+                continue
+            if a != m:
+                if "err" in a and "ok" in m:
+                    ctx.violation("exception-in-domain", "%s raised %s for %r; the rule gives %r" % (
+                        who, a["err"], shown[i], m["ok"]), desc)
+                elif floaty and "ok" in a and "ok" in m:
+                    ctx.violation("to-float-ne-scalar-sequence", "%s returned %r for %r; value * 2^-n_frac is %r" % (
+                        who, a["ok"], shown[i], m["ok"]), desc)
+                ctx.mismatch("c16.reuse." + kind, "%s input=%r impl=%r model=%r" % (who, shown[i], a, m), desc)
+                break
+        for jj, ok in enumerate(oc.get("oracle", [])):
+            if not ok:
+                i = oc["sel"][jj]
+                ctx.violation("array-ne-scalar-sequence" if kind == "np_fix" else "scalar-ne-rule-sequence",
+                              "%s returned %r for %r: violates the conversion rule; the model of float_to_fp gives %r" % (
+                                  who, oc["ret"][i]["ok"], shown[i], oc["model"][i]), desc)
+                break
+        if kind == "np_float":
+            for i, (a, sc) in enumerate(zip(oc["ret"], oc["scalar"])):
+                if "ok" in a and "ok" in sc and a != sc:
+                    ctx.violation("array-ne-scalar-sequence", "%s: element %r -> %r but fp_to_float gives %r" % (
+                        who, shown[i], a["ok"], sc["ok"]), desc)
+                    break
+        if oc.get("meta") is False:
+            ctx.violation("array-shape-dtype", "%s changed shape / dtype" % who, desc)
+        if oc.get("input_modified"):
+            ctx.violation("array-input-modified", "%s changed the caller's input: %s" % (who, oc["input_modified"]), desc)
+        # the kept result must still be what was returned
+        if oc.get("changed"):
+            rule = ""
+            if "oracle_now" in oc:
+                bad = [i for i, ok in enumerate(oc["oracle_now"]) if not ok]
+                rule = "; the Lean rule rejects %d of its %d elements now" % (len(bad), len(oc["oracle_now"]))
+            ctx.violation("array-result-overwritten",
+                          "%s returned %r for the input %r (scalar converter: %r); after %s the SAME returned array "
+                          "holds %r%s%s" % (
+                              who, [q.get("ok", q) for q in oc["ret"]], shown,
+                              [q.get("ok", q) for q in oc.get("scalar", [])], oc["changed"],
+                              [q.get("ok", q) for q in oc["now"]], rule,
+                              "; it shares memory with " + ", ".join(oc["alias"]) if oc["alias"] else ""), desc)
+        if oc.get("alias"):
+            ctx.tag("reuse_result_aliases")
+        key = (cl["c"], cl.get("cont"), len(inputs or []))
+        if key in seen and kind in ("np_fix", "np_float"):
+            same_shape_again = True
+        seen.add(key)
+        ctx.tag("reuse_" + kind)
+    if same_shape_again:
+        ctx.tag("reuse_same_shape_same_converter")
+    if len(c["convs"]) > 1:
+        ctx.tag("reuse_several_converters")
+    ctx.case(desc, same_shape_again or len(c["convs"]) > 1)
+
+
 def eval_cases(ctx, cases):
     conv = [c for c in cases if c["kind"] == "conv"]
     inv = [c for c in cases if c["kind"] == "inv"]
     narrow = [c for c in cases if c["kind"] == "narrow"]
     seqs = [c for c in cases if c["kind"] == "seq"]
+    reuse = [c for c in cases if c["kind"] == "reuse"]
     for i in range(0, len(conv), 1500):
         eval_conv(ctx, conv[i:i + 1500])
     for i in range(0, len(inv), 1500):
@@ -1166,6 +1486,8 @@ def eval_cases(ctx, cases):
         eval_narrow(ctx, narrow[i:i + 1500])
     for i in range(0, len(seqs), 1500):
         eval_seq(ctx, seqs[i:i + 1500])
+    for i in range(0, len(reuse), 1500):
+        eval_reuse(ctx, reuse[i:i + 1500])
 
 
 FIXED = [
@@ -1193,6 +1515,22 @@ FIXED = [
      "steps": [{"fmt": {"signed": False, "bits": 8, "frac": 0}, "to_float": []},
                {"fmt": {"signed": False, "bits": 16, "frac": 0}, "to_float": [0]},
                {"fmt": {"signed": False, "bits": 32, "frac": 3}, "to_float": [3, 0]}]},
+    # one converter object, same-shaped inputs, all results kept
+    {"kind": "reuse", "convs": [{"kind": "np_fix", "fmt": {"signed": True, "bits": 32, "frac": 15}}],
+     "calls": [{"c": 0, "cont": "c2d", "vs": [to_dy(x) for x in (0.5, -0.25, 3.75, 1e30, -1e30, 0.0)]},
+               {"c": 0, "cont": "c2d", "vs": [to_dy(x) for x in (-1.5, 2.125, 0.0625, 7.0, -7.0, 100.0)]},
+               {"c": 0, "cont": "c64", "vs": [to_dy(x) for x in (1.0, 2.0)]},
+               {"c": 0, "cont": "c2d", "vs": [to_dy(x) for x in (9.0, 8.0, 7.0, 6.0, 5.0, 4.0)]}],
+     "mutate_result": [], "mutate_input": [1]},
+    {"kind": "reuse", "convs": [{"kind": "fp", "fmt": {"signed": False, "bits": 8, "frac": 0}},
+                                {"kind": "fp", "fmt": {"signed": True, "bits": 9, "frac": 0}},
+                                {"kind": "np_fix", "fmt": {"signed": True, "bits": 16, "frac": 0}},
+                                {"kind": "fix", "fmt": {"signed": False, "bits": 15, "frac": 0}}],
+     "calls": [{"c": 0, "cont": "list", "vs": [to_dy(x) for x in (-300.0, -1.0, 255.0, 300.0)]},
+               {"c": 1, "cont": "list", "vs": [to_dy(x) for x in (-300.0, -1.0, 255.0, 300.0)]},
+               {"c": 2, "cont": "c64", "vs": [to_dy(x) for x in (-40000.0, -1.0, 32767.0, 40000.0)]},
+               {"c": 3, "cont": "list", "vs": [to_dy(x) for x in (-40000.0, -1.0, 32767.0, 40000.0)]}],
+     "mutate_result": [2], "mutate_input": []},
     {"kind": "narrow", "prec": "f16", "fmt": {"signed": True, "bits": 32, "frac": 16}, "shape": 0,
      "vs": [to_dy(x) for x in (0.5, 0.0, -0.25, 1.0, 100.0, 0.333251953125, 65504.0)]},
     {"kind": "narrow", "prec": "f32", "fmt": {"signed": True, "bits": 32, "frac": 128}, "shape": 1,
@@ -1220,16 +1558,19 @@ def run(ctx):
     n_inv = ctx.scale(700, 8000)
     n_narrow = ctx.scale(800, 12000)
     n_seq = ctx.scale(700, 10000)
+    n_reuse = ctx.scale(700, 10000)
     if ctx.extended:
         n_conv *= 4
         n_inv *= 4
         n_narrow *= 4
         n_seq *= 4
+        n_reuse *= 4
     cases = [dict(c) for c in FIXED]
     cases += [gen_conv_case(rng) for _ in range(n_conv)]
     cases += [gen_inv_case(rng) for _ in range(n_inv)]
     cases += [gen_narrow_case(rng) for _ in range(n_narrow)]
     cases += [gen_seq_case(rng) for _ in range(n_seq)]
+    cases += [gen_reuse_case(rng) for _ in range(n_reuse)]
     if not ctx.quick or ctx.extended:
         # all boundary neighbourhoods of every (signed, bits, frac)
         for signed in (True, False):
@@ -1237,7 +1578,8 @@ def run(ctx):
                 for frac in range(-3, bits + 4):
                     cases.append(boundary_case({"signed": signed, "bits": bits, "frac": frac}))
     eval_cases(ctx, cases)
-    ctx.extra["values_converted"] = sum(len(c.get("vs", c.get("ks", []))) * len(c.get("steps", [0])) for c in cases)
+    ctx.extra["values_converted"] = sum(len(c.get("vs", c.get("ks", []))) * len(c.get("steps", [0])) for c in cases) + sum(
+        len(cl.get("vs", cl.get("ks", []))) for c in cases for cl in c.get("calls", []))
 
 
 def replay(ctx, payload):
